@@ -1,0 +1,302 @@
+//! Verification seams, compiled only with `--cfg in_toto_verif`.
+//!
+//! Nothing in this module changes behaviour unless a [`Driver`] has been
+//! installed on the current thread: without one the clock is the real clock
+//! and every ordered view keeps the order the standard library produced.
+//!
+//! With a driver installed
+//! * [`clock`] returns the driver's clock (if any), and
+//! * every *choice point* (an iteration over a hash map or over directory
+//!   enumeration results whose order the runtime is free to pick) first sorts
+//!   the elements by key and then applies the permutation selected by the
+//!   driver's script. Choice `0` is the sorted order. The driver records every
+//!   choice point it answered, so an explorer can enumerate all of them.
+
+use std::cell::RefCell;
+use std::collections::HashMap;
+use std::ops::Index;
+
+use chrono::{DateTime, Utc};
+
+use crate::models::supply_chain_item::SupplyChainItem;
+use crate::models::LinkMetadata;
+use crate::Result;
+
+/// One answered choice point.
+#[derive(Clone, Debug, PartialEq, Eq)]
+pub struct ChoicePoint {
+    /// Name of the iteration site.
+    pub site: &'static str,
+    /// Number of elements iterated (only points with `n >= 2` are recorded).
+    pub n: usize,
+    /// Index of the permutation used, in `0..n!` (lexicographic rank over the
+    /// key-sorted sequence).
+    pub chosen: usize,
+}
+
+/// Per-thread environment answers.
+#[derive(Clone, Debug, Default)]
+pub struct Driver {
+    /// Replacement for `Utc::now()` in layout expiry checks.
+    pub clock: Option<DateTime<Utc>>,
+    /// When false, iteration orders are left exactly as `std` produced them
+    /// and no choice point is recorded.
+    pub permute: bool,
+    /// Permutation index to use at the i-th recorded choice point; missing
+    /// entries mean 0 (sorted order).
+    pub script: Vec<usize>,
+    /// Choice points answered so far.
+    pub trace: Vec<ChoicePoint>,
+    /// Set when the script asked for a permutation index that does not exist
+    /// at that point (the explorer treats this as a hard divergence error).
+    pub diverged: bool,
+}
+
+thread_local! {
+    static DRIVER: RefCell<Option<Driver>> = const { RefCell::new(None) };
+}
+
+/// Install a driver on the current thread, returning the previous one.
+pub fn install(driver: Driver) -> Option<Driver> {
+    DRIVER.with(|d| d.borrow_mut().replace(driver))
+}
+
+/// Remove and return the driver of the current thread.
+pub fn uninstall() -> Option<Driver> {
+    DRIVER.with(|d| d.borrow_mut().take())
+}
+
+/// The driver's clock, if a driver with a clock is installed.
+pub fn clock() -> Option<DateTime<Utc>> {
+    DRIVER.with(|d| d.borrow().as_ref().and_then(|d| d.clock))
+}
+
+fn factorial(n: usize) -> usize {
+    (1..=n).product::<usize>().max(1)
+}
+
+/// Ask the driver which permutation to apply to `n` key-sorted elements.
+/// `None` = leave the order alone.
+fn choose(site: &'static str, n: usize) -> Option<usize> {
+    DRIVER.with(|d| {
+        let mut d = d.borrow_mut();
+        let d = d.as_mut()?;
+        if !d.permute {
+            return None;
+        }
+        if n < 2 {
+            return Some(0);
+        }
+        let mut chosen = d.script.get(d.trace.len()).copied().unwrap_or(0);
+        if chosen >= factorial(n) {
+            d.diverged = true;
+            chosen = 0;
+        }
+        d.trace.push(ChoicePoint { site, n, chosen });
+        Some(chosen)
+    })
+}
+
+/// Reorder `items` (already sorted) into the permutation of lexicographic
+/// rank `rank`.
+fn apply_rank<T>(items: Vec<T>, mut rank: usize) -> Vec<T> {
+    let n = items.len();
+    let mut pool: Vec<Option<T>> = items.into_iter().map(Some).collect();
+    let mut idx: Vec<usize> = (0..n).collect();
+    let mut out = Vec::with_capacity(n);
+    for i in 0..n {
+        let f = factorial(n - 1 - i);
+        let k = rank / f;
+        rank %= f;
+        let pos = idx.remove(k);
+        out.push(pool[pos].take().unwrap());
+    }
+    out
+}
+
+fn order<T, K: Ord>(
+    mut items: Vec<T>,
+    site: &'static str,
+    key: impl Fn(&T) -> K,
+) -> Vec<T> {
+    match choose(site, items.len()) {
+        None => items,
+        Some(rank) => {
+            items.sort_by(|a, b| key(a).cmp(&key(b)));
+            apply_rank(items, rank)
+        }
+    }
+}
+
+/// Owned, ordered stand-in for a `HashMap` that is only read.
+#[derive(Debug, Clone)]
+pub struct OrdMap<K, V>(Vec<(K, V)>);
+
+/// Borrowed, ordered stand-in for a `&HashMap` that is only read.
+#[derive(Debug, Clone)]
+pub struct OrdRef<'a, K, V>(Vec<(&'a K, &'a V)>);
+
+/// Take over an owned map at choice point `site`.
+pub fn owned<K: Ord + Clone, V>(
+    map: HashMap<K, V>,
+    site: &'static str,
+) -> OrdMap<K, V> {
+    OrdMap(order(map.into_iter().collect(), site, |e: &(K, V)| e.0.clone()))
+}
+
+/// Take over an owned map of maps; only the inner maps are choice points (the
+/// outer one is iterated in key order when a driver permutes).
+pub fn owned_nested<K: Ord + Clone, K2: Ord + Clone, V>(
+    map: HashMap<K, HashMap<K2, V>>,
+    site: &'static str,
+) -> OrdMap<K, OrdMap<K2, V>> {
+    let mut outer: Vec<(K, HashMap<K2, V>)> = map.into_iter().collect();
+    if DRIVER.with(|d| d.borrow().as_ref().is_some_and(|d| d.permute)) {
+        outer.sort_by(|a, b| a.0.cmp(&b.0));
+    }
+    OrdMap(
+        outer
+            .into_iter()
+            .map(|(k, inner)| (k, owned(inner, site)))
+            .collect(),
+    )
+}
+
+/// View a borrowed map at choice point `site`.
+pub fn view<'a, K: Ord, V>(
+    map: &'a HashMap<K, V>,
+    site: &'static str,
+) -> OrdRef<'a, K, V> {
+    OrdRef(order(map.iter().collect(), site, |e: &(&K, &V)| e.0))
+}
+
+/// Take over an iterator of directory-enumeration results.
+pub fn perm_paths<I, E>(
+    iter: I,
+    site: &'static str,
+) -> std::vec::IntoIter<std::result::Result<std::path::PathBuf, E>>
+where
+    I: Iterator<Item = std::result::Result<std::path::PathBuf, E>>,
+{
+    order(iter.collect(), site, |e| e.as_ref().ok().cloned()).into_iter()
+}
+
+impl<K, V> OrdMap<K, V> {
+    pub fn len(&self) -> usize {
+        self.0.len()
+    }
+    pub fn is_empty(&self) -> bool {
+        self.0.is_empty()
+    }
+    pub fn iter(&self) -> impl DoubleEndedIterator<Item = (&K, &V)> + '_ {
+        self.0.iter().map(|(k, v)| (k, v))
+    }
+    pub fn keys(&self) -> impl DoubleEndedIterator<Item = &K> + '_ {
+        self.0.iter().map(|(k, _)| k)
+    }
+    pub fn values(&self) -> impl DoubleEndedIterator<Item = &V> + '_ {
+        self.0.iter().map(|(_, v)| v)
+    }
+    pub fn into_keys(self) -> impl DoubleEndedIterator<Item = K> {
+        self.0.into_iter().map(|(k, _)| k)
+    }
+    pub fn into_values(self) -> impl DoubleEndedIterator<Item = V> {
+        self.0.into_iter().map(|(_, v)| v)
+    }
+}
+
+impl<K: PartialEq, V> OrdMap<K, V> {
+    pub fn get(&self, key: &K) -> Option<&V> {
+        self.0.iter().find(|(k, _)| k == key).map(|(_, v)| v)
+    }
+    pub fn contains_key(&self, key: &K) -> bool {
+        self.get(key).is_some()
+    }
+}
+
+impl<K: PartialEq, V> Index<&K> for OrdMap<K, V> {
+    type Output = V;
+    fn index(&self, key: &K) -> &V {
+        self.get(key).expect("no entry found for key")
+    }
+}
+
+impl<K, V> IntoIterator for OrdMap<K, V> {
+    type Item = (K, V);
+    type IntoIter = std::vec::IntoIter<(K, V)>;
+    fn into_iter(self) -> Self::IntoIter {
+        self.0.into_iter()
+    }
+}
+
+impl<'b, K, V> IntoIterator for &'b OrdMap<K, V> {
+    type Item = (&'b K, &'b V);
+    type IntoIter = std::iter::Map<
+        std::slice::Iter<'b, (K, V)>,
+        fn(&'b (K, V)) -> (&'b K, &'b V),
+    >;
+    fn into_iter(self) -> Self::IntoIter {
+        fn split<K, V>(e: &(K, V)) -> (&K, &V) {
+            (&e.0, &e.1)
+        }
+        self.0.iter().map(split::<K, V> as fn(&'b (K, V)) -> (&'b K, &'b V))
+    }
+}
+
+impl<'a, K, V> OrdRef<'a, K, V> {
+    pub fn len(&self) -> usize {
+        self.0.len()
+    }
+    pub fn is_empty(&self) -> bool {
+        self.0.is_empty()
+    }
+    pub fn iter(&self) -> impl DoubleEndedIterator<Item = (&'a K, &'a V)> + '_ {
+        self.0.iter().copied()
+    }
+    pub fn keys(&self) -> impl DoubleEndedIterator<Item = &'a K> + '_ {
+        self.0.iter().map(|(k, _)| *k)
+    }
+    pub fn values(&self) -> impl DoubleEndedIterator<Item = &'a V> + '_ {
+        self.0.iter().map(|(_, v)| *v)
+    }
+}
+
+impl<'a, K: PartialEq, V> OrdRef<'a, K, V> {
+    pub fn get(&self, key: &K) -> Option<&'a V> {
+        self.0.iter().find(|(k, _)| *k == key).map(|(_, v)| *v)
+    }
+    pub fn contains_key(&self, key: &K) -> bool {
+        self.get(key).is_some()
+    }
+}
+
+impl<'a, K: PartialEq, V> Index<&K> for OrdRef<'a, K, V> {
+    type Output = V;
+    fn index(&self, key: &K) -> &V {
+        self.get(key).expect("no entry found for key")
+    }
+}
+
+impl<'a, K, V> IntoIterator for OrdRef<'a, K, V> {
+    type Item = (&'a K, &'a V);
+    type IntoIter = std::vec::IntoIter<(&'a K, &'a V)>;
+    fn into_iter(self) -> Self::IntoIter {
+        self.0.into_iter()
+    }
+}
+
+impl<'a, 'b, K, V> IntoIterator for &'b OrdRef<'a, K, V> {
+    type Item = (&'a K, &'a V);
+    type IntoIter = std::iter::Copied<std::slice::Iter<'b, (&'a K, &'a V)>>;
+    fn into_iter(self) -> Self::IntoIter {
+        self.0.iter().copied()
+    }
+}
+
+/// The rule engine final-product verification uses for steps and inspections.
+pub fn apply_rules(
+    item: &Box<dyn SupplyChainItem>,
+    links: &HashMap<String, LinkMetadata>,
+) -> Result<()> {
+    crate::rulelib::apply_rules_on_link(item, links)
+}
